@@ -152,6 +152,10 @@ NOTES = {   # what happened on the FIRST trial of a change, and what was strengt
     'C20-13': 'round 7. Node.Copy aliases the live endpoints map when it is allocated but empty. First trial: MISSED (stress readers discarded their snapshots and no node ever had zero endpoints). Readers walk the snapshots they hold; drain run with a single flapping endpoint under the race detector: concurrent map iteration and map write.',
     'C20-14': 'round 7. syncer.mu held while publishing to gossip: lock-order inversion with the gossip state mutex (cycle in the regenerated lock graph).',
     'C20-15': 'round 7. Delta() dereferences a nil node state for digest entries ApplyDigest ignored.',
+    'C06-16': 'round 8 (five authors, two changes each, 10 delivered, 6 of them repeats of earlier changes - the packing change twice more). keepControlHeaders fast path with a case-sensitive substring test: `Connection: X-Piko-Forward`.',
+    'C06-17': 'round 8. RemoveConn trusting the cluster count: a duplicate removal while a sibling upstream is connected drops the balancer. A registry defect with a routing symptom: C05 reports it (as for C06-2).',
+    'C09-17': 'round 8. Admin forwardInterceptor registered before the auth middleware: an unauthenticated request with ?forward=<peer> is proxied to the peer.',
+    'C18-16': 'round 8. websocket.Dial retries a response-less failure only if it is a net.Error: a handshake that ends in a clean EOF makes the listener give up.',
 }
 
 
